@@ -54,6 +54,19 @@ let () = iter_lines (fun line ->
              | Some coefs -> Printf.printf "rt %s | %s | %s | simd=%d\n" (zs (fdct_islow !cf (convsamp !cf a))) (zs coefs) (zs (inverse_block !cf q coefs)) (simd_flag true)
            end
        | _ -> Printf.printf "%s badcase\n" cmd)
+  | cmd :: _ when cmd = "redge" || cmd = "bedge" ->
+      let body = String.sub line 5 (String.length line - 5) in
+      (match fields body with
+       | [hd; smp] ->
+           (match ints hd with
+            | [nr; rl; a2; a3; a4] ->
+                let v = Array.of_list (ints smp) in
+                let rows = List.init nr (fun r -> List.init rl (fun c -> let k = r * rl + c in z_of_int (if k < Array.length v then v.(k) else 0))) in
+                let res = if cmd = "redge" then expand_right_edge rows (nat_of_int a2) (nat_of_int a3) (nat_of_int a4)
+                          else expand_bottom_edge rows (nat_of_int a2) (nat_of_int a3) (nat_of_int a4) in
+                Printf.printf "%s %s\n" cmd (pr_ints (List.concat (List.map il res)))
+            | _ -> print_endline "badcase")
+       | _ -> print_endline "badcase")
   | ["rlt"; lo; hi] ->
       let lo = int_of_string lo and hi = int_of_string hi in
       let mask = int_of_z (maxsample !cf) * 4 + 3 in
